@@ -63,7 +63,10 @@ struct DfsStats { uint64_t executions = 0, choice_points = 0, max_trace = 0, pru
 
 // run(trace_out) executes one complete execution under the explorer and checks it; it may return false to stop the search.
 // Explores all executions with at most `bound` deviations. max_exec caps the number of executions (reported as capped).
-inline DfsStats dfs(const std::function<bool()> &run_one, int bound, uint64_t max_exec = UINT64_MAX) {
+// outcome_bound: OUTCOME alternatives are free by default (all distinct results of a sub-enumeration are followed); for inputs
+// whose outcome sets multiply (tie-heavy dense graphs under many ranks) a harness may bound the number of non-default
+// outcomes per execution as well and must then report that bound.
+inline DfsStats dfs(const std::function<bool()> &run_one, int bound, uint64_t max_exec = UINT64_MAX, int outcome_bound = 1 << 30) {
     DfsStats st; st.bound = bound;
     struct Frame { std::vector<int> prefix; std::vector<Point> expect; };
     std::vector<Frame> stack;
@@ -81,11 +84,12 @@ inline DfsStats dfs(const std::function<bool()> &run_one, int bound, uint64_t ma
         if (tr.size() > st.max_trace) st.max_trace = tr.size();
         if (!cont) break;
         // branch on every choice point after the prefix
-        int dev = 0;
+        int dev = 0, odev = 0;
         for (size_t i = 0; i < tr.size(); ++i) {
             if (i >= f.prefix.size()) {
                 int cost = dev + (tr[i].kind == ORDER ? 1 : 0);
-                if (cost > bound) { st.pruned_by_bound += tr[i].arity - 1; }
+                int ocost = odev + (tr[i].kind == OUTCOME ? 1 : 0);
+                if (cost > bound || ocost > outcome_bound) { st.pruned_by_bound += tr[i].arity - 1; }
                 else for (int alt = tr[i].arity - 1; alt >= 1; --alt) {
                     Frame nf;
                     nf.prefix.reserve(i + 1);
@@ -96,6 +100,7 @@ inline DfsStats dfs(const std::function<bool()> &run_one, int bound, uint64_t ma
                 }
             }
             if (tr[i].kind == ORDER && tr[i].chosen != 0) ++dev;
+            if (tr[i].kind == OUTCOME && tr[i].chosen != 0) ++odev;
         }
     }
     return st;
